@@ -215,21 +215,34 @@ class SimLock:
         s = self.sched
         th = s.current()
         s.yield_point("lock_acquire")
+        deadline = None if timeout is None or timeout < 0 else s.loop.time() + timeout
         while self.owner is not None:
             if not blocking:
                 return False
             if th is None:
                 raise RuntimeError("loop thread would block on a lock held by a simulated thread")
+            if deadline is not None and s.loop.time() >= deadline:
+                return False
             s.stat_lock_waits = getattr(s, "stat_lock_waits", 0) + 1
             self.waiters.append(th)
+            if deadline is not None:
+                th.wake_handle = s.loop.call_at(deadline, self._timed_out, th)
             s._park(th)
         self.owner = th if th is not None else "loop"
         return True
+
+    def _timed_out(self, th):
+        if th in self.waiters:
+            self.waiters.remove(th)
+            self.sched._resume(th)
 
     def release(self):
         self.owner = None
         if self.waiters:
             th = self.waiters.pop(0)
+            if getattr(th, "wake_handle", None) is not None:
+                th.wake_handle.cancel()
+                th.wake_handle = None
             self.sched.loop.call_soon(self.sched._resume, th)
 
     def locked(self):
